@@ -167,5 +167,13 @@ func (s *Server) handleRPC(stream *drpcstream.Stream, rpc string) (err error) {
 	if err != nil {
 		return errs.Wrap(stream.SendError(err))
 	}
-	return errs.Wrap(stream.CloseSend())
+	err = stream.CloseSend()
+
+	// the handler has returned, so nothing will ever receive on this stream
+	// again. terminate it locally so that a message the client still sends is
+	// dropped instead of parking the connection's reader forever, which would
+	// stop the connection from ever serving another rpc.
+	stream.Cancel(context.Canceled)
+
+	return errs.Wrap(err)
 }
